@@ -103,36 +103,43 @@ def run(ctx):
     def viol(key, what, rp):
         seen.setdefault(key, (what, rp))
     reqs, meta = [], []
-    for k in range(ctx.n(60, 500)):
-        mode = ["none", "ortho", "tri"][k % 3]
-        t = make(md, rng, mode)
+    for k in range(ctx.n(48, 400)):
+        mode = ["none", "ortho", "tri", "mixed"][k % 4]
+        if mode == "mixed":
+            # per-frame varying cell shape: the first frame orthorhombic, later frames skewed
+            parts = [make(md, rng, "ortho"), make(md, rng, "tri"), make(md, rng, "tri")]
+            t = md.join(parts, check_topology=False)
+        else:
+            t = make(md, rng, mode)
         n = t.n_atoms
         trip = np.array([(i, i + 1, i + 2) for i in range(n - 2)] + [(2, 0, 5)])
         quad = np.array([(i, i + 1, i + 2, i + 3) for i in range(n - 3)] + [(0, 2, 5, 7)])
         orth = mode == "ortho" and bool(np.allclose(t.unitcell_angles, 90))
-        boxf = t.unitcell_vectors[0] if mode != "none" else np.eye(3, dtype=np.float32)
-        box = boxf.astype(np.float64) if mode != "none" else None
         kind = "none" if mode == "none" else ("ortho" if orth else "tri")
-        X = t.xyz[0].astype(np.float64)
         res = {}
         for opt in (True, False):
-            res[("a", opt)] = md.compute_angles(t, trip, periodic=True, opt=opt)[0]
-            res[("d", opt)] = md.compute_dihedrals(t, quad, periodic=True, opt=opt)[0]
-        rev_a = md.compute_angles(t, trip[:, ::-1], periodic=True)[0]
-        rev_d = md.compute_dihedrals(t, quad[:, ::-1], periodic=True)[0]
-        tm = md.Trajectory(t.xyz * np.array([-1, 1, 1], dtype=np.float32), t.topology)
-        if mode != "none":
-            bm = boxf.copy(); bm[:, 0] *= -1      # mirrored cell: flip x of every box vector, then restore a right-handed description
-            tm.unitcell_vectors = None
-        mir_d = md.compute_dihedrals(tm, quad, periodic=False)[0] if mode == "none" else None
+            res[("a", opt)] = md.compute_angles(t, trip, periodic=True, opt=opt)
+            res[("d", opt)] = md.compute_dihedrals(t, quad, periodic=True, opt=opt)
+        rev_a = md.compute_angles(t, trip[:, ::-1], periodic=True)
+        rev_d = md.compute_dihedrals(t, quad[:, ::-1], periodic=True)
+        mir_d = None
+        if mode == "none":
+            tm = md.Trajectory(t.xyz * np.array([-1, 1, 1], dtype=np.float32), t.topology)
+            mir_d = md.compute_dihedrals(tm, quad, periodic=False)
         rnd = "hz" if kind == "ortho" else "ha"
-        boxs = " ".join(rat(x) for x in boxf.ravel())
-        for ti, tr in enumerate(trip):
-            reqs.append("ang %s %s %s %s" % (kind, rnd, boxs, " ".join(rat(x) for x in t.xyz[0, tr].ravel())))
-            meta.append(("a", k, mode, box, X[tr], {o: float(res[("a", o)][ti]) for o in (True, False)}, float(rev_a[ti]), None, tuple(int(x) for x in tr)))
-        for qi, q in enumerate(quad):
-            reqs.append("dih %s %s %s %s" % (kind, rnd, boxs, " ".join(rat(x) for x in t.xyz[0, q].ravel())))
-            meta.append(("d", k, mode, box, X[q], {o: float(res[("d", o)][qi]) for o in (True, False)}, float(rev_d[qi]), None if mir_d is None else float(mir_d[qi]), tuple(int(x) for x in q)))
+        for f in range(t.n_frames):
+            boxf = t.unitcell_vectors[f] if mode != "none" else np.eye(3, dtype=np.float32)
+            box = boxf.astype(np.float64) if mode != "none" else None
+            X = t.xyz[f].astype(np.float64)
+            boxs = " ".join(rat(x) for x in boxf.ravel())
+            fmode = mode if mode != "mixed" else "mixed-frame%d" % f
+            for ti, tr in enumerate(trip):
+                reqs.append("ang %s %s %s %s" % (kind, rnd, boxs, " ".join(rat(x) for x in t.xyz[f, tr].ravel())))
+                meta.append(("a", k, fmode, box, X[tr], {o: float(res[("a", o)][f, ti]) for o in (True, False)}, float(rev_a[f, ti]), None, tuple(int(x) for x in tr)))
+            for qi, q in enumerate(quad):
+                reqs.append("dih %s %s %s %s" % (kind, rnd, boxs, " ".join(rat(x) for x in t.xyz[f, q].ravel())))
+                meta.append(("d", k, fmode, box, X[q], {o: float(res[("d", o)][f, qi]) for o in (True, False)}, float(rev_d[f, qi]),
+                             None if mir_d is None else float(mir_d[f, qi]), tuple(int(x) for x in q)))
     model = ctx.driver.query(reqs) if ctx.driver_ok else [None] * len(reqs)
     excluded = 0
     for (what, k, mode, box, P, got, rev, mir, idx), m in zip(meta, model):
